@@ -409,7 +409,8 @@ def fixed_rows(fixed_source, encoding, field_name_and_lengths, line_delimiter="a
         return result
 
     if isinstance(fixed_source, str):
-        fixed_file = io.open(fixed_source, "r", encoding=encoding)
+        # Use newline="" to preserve line delimiters instead of translating them all to "\n".
+        fixed_file = io.open(fixed_source, "r", newline="", encoding=encoding)
         is_opened = True
     else:
         fixed_file = fixed_source
